@@ -1726,10 +1726,13 @@ func runDerivePackage(p dpkg) (fails []outcome, stage string) {
 	law := strings.Replace(scratch.DeriveLib, "package PKGNAME", "package pa", 1)
 	_ = m.WriteFile("pa/zz_derive_test.go", law)
 	_ = m.WriteFile("pa/zz_dcases_test.go", p.cases())
-	r := m.Go(300*time.Second, "test", "-count=1", "-vet=off", "-v", "./pa")
+	r, _, died := m.GoTestLaws(300 * time.Second)
 	dumpMark("test")
 	if r.TimedOut {
 		return []outcome{{"law|timeout", "law test did not finish"}}, "law"
+	}
+	if died {
+		return []outcome{{"infra|law-test-died", fmt.Sprintf("go test ended with exit code %d three times without a failing law, a panic or a build error: %s", r.ExitCode, clip(r.Out, 800))}}, "infra"
 	}
 	seen := map[string]bool{}
 	for _, l := range strings.Split(r.Out, "\n") {
@@ -1942,6 +1945,9 @@ func TestKnownShape(t *testing.T) {
 			rec.PlainFail(t, "HARNESS|infra|toolchain-trouble", "%s", clip(r.Out, 400))
 		case strings.Contains(r.Out, "SHARED-STORAGE"):
 			rec.PlainFail(t, "C08|known-shape|clone-named-container|law", "%s\n--- derive file:\n%s", clip(r.Out, 800), clip(m.ReadFile("pa/pa_derive_generated.go"), 800))
+		case r.ExitCode != 0 && !strings.Contains(r.Out, ".go:") && !strings.Contains(r.Out, "--- FAIL") && !strings.Contains(r.Out, "panic:"):
+			// go test died without saying why (killed from outside): nothing decided
+			rec.PlainFail(t, "HARNESS|infra|law-test-died", "exit code %d: %s", r.ExitCode, clip(r.Out, 400))
 		case r.ExitCode != 0:
 			rec.PlainFail(t, "C08|known-shape|clone-named-container|compile", "%s", clip(r.Out, 1200))
 		}
